@@ -2,7 +2,7 @@
 Lemmas/C08LBare.lean — separator-less dialects with MORE THAN ONE word (audit round 2a,
 finding 14): `class nosep(mac_eui48): word_sep = ''` keeps word_size 8, num_words 6 and
 `'%.2X'`, so its text is twelve hex digits — the bare spelling — and parses back; `fits`
-(Lemmas/C08LText.lean) only admits an empty separator for one-word dialects.  `fitsBare` is the
+(Lemmas/C08LText.lean) only allows an empty separator for one-word dialects.  `fitsBare` is the
 missing case: every word printed with exactly `word_size / 4` digits and nothing in between.
 Core only.
 -/
